@@ -31,7 +31,10 @@ def apply_patch(cwd, path):
         if rc == 0:
             sh("git reset -q", cwd=cwd)   # -3 stages the result
         else:
-            sh("git checkout -- . && git reset -q", cwd=cwd)
+            if cwd != "/repo":
+                sh("git reset -q --hard HEAD", cwd=cwd)   # a failed three-way merge leaves unmerged entries
+            else:
+                sh("git reset -q && git checkout -- .", cwd=cwd)
             out += out2
     return rc, out
 
